@@ -97,6 +97,8 @@ var permanent = regexp.MustCompile(`InsertServiceV2|numbercache\.NewCache|watchd
 
 const day0 = 1700000000
 
+const manyValues = 30
+
 const pyroType = "process_cpu:cpu:nanoseconds:cpu:nanoseconds"
 
 func preload(w *e2e.World) error {
@@ -150,6 +152,19 @@ func preload(w *e2e.World) error {
 		int64(day0+1)*1e6, int64(day0+2)*1e6)
 	if c, b := w.Push("POST", "/tempo/spans", "application/json", []byte(zip), nil); c != 202 {
 		return fmt.Errorf("preload traces: %d %s", c, b)
+	}
+	// 30 single-span traces whose tag `many` has 30 distinct values: more rows than the limit (20) of the limit-bounded
+	// Tempo requests, so that "the consumer has what it needs while the producer still has rows" (LimitReached in
+	// ReadPipeline.tla) is reached on the list endpoints too
+	{
+		var sp []string
+		for i := 0; i < manyValues; i++ {
+			sp = append(sp, fmt.Sprintf(`{"traceId":"%032x","id":"%016x","name":"op%d","timestamp":%d,"duration":%d,"localEndpoint":{"serviceName":"svc2"},"tags":{"many":"v%03d"}}`,
+				0xabc000+i, 0xdef000+i, i%3, int64(day0+3+i)*1e6, 1000+i, i))
+		}
+		if c, b := w.Push("POST", "/tempo/spans", "application/json", []byte("["+strings.Join(sp, ",")+"]"), nil); c != 202 {
+			return fmt.Errorf("preload many traces: %d %s", c, b)
+		}
 	}
 	// one CPU profile with two label sets (Pyroscope /ingest, pprof)
 	for i, pod := range []string{"p1", "p2"} {
@@ -377,6 +392,11 @@ func endpoints() []endpoint {
 		{"tempo_tag_values", "/api/search/tag/k/values", map[string]string{}, "", "none", false},
 		{"tempo_v2_tags", "/api/v2/search/tags", map[string]string{"start": ss, "end": es, "q": "{}"}, "", "none", false},
 		{"tempo_v2_tag_values", "/api/v2/search/tag/k/values", map[string]string{"start": ss, "end": es, "q": "{}"}, "", "none", false},
+		// list endpoints over a tag with more values (30) / more traces than the limit the request carries
+		{"tempo_tag_values_many", "/api/search/tag/many/values", map[string]string{"limit": "20"}, "", "none", false},
+		{"tempo_v2_tag_values_many", "/api/v2/search/tag/many/values", map[string]string{"start": ss, "end": es, "q": "{}", "limit": "20"}, "", "none", false},
+		{"tempo_v2_tag_values_span", "/api/v2/search/tag/span.many/values", map[string]string{"start": ss, "end": es, "limit": "20"}, "", "none", false},
+		{"tempo_search_many", "/api/search", map[string]string{"start": ss, "end": es, "limit": "20"}, "q", "traceql_many", false},
 		// Pyroscope querier (connect protocol over POST, JSON bodies; times in ms)
 		{"pyro_profile_types", "/querier.v1.QuerierService/ProfileTypes", map[string]string{"start": ms, "end": me}, "", "none", true},
 		{"pyro_label_names", "/querier.v1.QuerierService/LabelNames", map[string]string{"start": ms, "end": me}, "matchers", "pyro", true},
@@ -442,6 +462,10 @@ var queryClasses = map[string]map[string]string{
 		"bad_regex":    `{.k=~"(("}`,
 		"huge":         `{.k="` + strings.Repeat("z", 200000) + `"}`,
 	},
+	"traceql_many": {
+		"attr_many": `{.many=~"v.*"}`,
+		"svc_many":  `{resource.service.name="svc2"}`,
+	},
 	"pyro": {
 		"sel":          `{service_name="c12svc"}`,
 		"sel_regex":    `{service_name=~"c12.*", pod!="zz"}`,
@@ -479,6 +503,13 @@ func schema() {
 		eps[e.Name] = map[string]any{"params": ps, "queries": qs, "good": good}
 	}
 	out["endpoints"] = eps
+	var wep []string
+	for _, e := range endpoints() {
+		if e.Params["start"] != "" && e.Params["end"] != "" && e.Params["step"] != "" {
+			wep = append(wep, e.Name)
+		}
+	}
+	out["window"] = map[string]any{"endpoints": wep, "start": winStart, "end": winEnd, "step": winStep}
 	out["faults"] = faultClasses
 	b, _ := json.MarshalIndent(out, "", " ")
 	fmt.Println(string(b))
@@ -527,6 +558,97 @@ func paramValue(name, valid, class string, other map[string]string) (string, boo
 	return valid, true
 }
 
+// ---- window alignment classes (param "@window", class "<start>/<end>/<step>") ----
+// FixPeriod / MatrixStep / the engines' step loops compute slot indices from (start, end, step, range of the aggregation,
+// sample time); which slot the bucket of a sample falls into - inside, the last one, one past the last one - depends on
+// how start and end lie relative to the range grid and to the data, and on step relative to the range. The single
+// parameter classes above keep start before and end far behind all data with one step, so only "inside" ever happened.
+var winStart = []string{"before_aligned", "before_off", "in_aligned"}
+var winEnd = []string{"after_data", "in_aligned", "in_aligned_odd", "in_off", "last_sample"}
+var winStep = []string{"eq_range", "half_range", "double_range", "coprime"}
+
+var reRange = regexp.MustCompile(`\[(\d+)([smh])(?:\]|:)`)
+
+// rangeOf: the range (s) of the first range selector of the query text; 10 without one
+func rangeOf(qtext string) int64 {
+	if m := reRange.FindStringSubmatch(qtext); m != nil {
+		n, _ := strconv.ParseInt(m[1], 10, 64)
+		switch m[2] {
+		case "m":
+			n *= 60
+		case "h":
+			n *= 3600
+		}
+		if n > 0 {
+			return n
+		}
+	}
+	return 10
+}
+
+// windowValues concretises a window class for an endpoint: start / end in the endpoint's time unit, step in seconds.
+// The preloaded streams have a sample every second (a1: day0..day0+39), every 200 ms (big*: day0..day0+70) and every
+// other second (m1: day0..day0+58); day0 is a multiple of 100.
+func windowValues(e endpoint, qtext, class string) map[string]string {
+	parts := strings.Split(class, "/")
+	if len(parts) != 3 {
+		return nil
+	}
+	R := rangeOf(qtext)
+	al := func(x int64) int64 { return x / R * R }
+	var st, en, step int64
+	switch parts[0] {
+	case "before_aligned":
+		st = al(day0-1) - R
+	case "before_off":
+		st = al(day0-1) - R + R/3 + 1
+	default: // in_aligned: on the range grid, inside the data where the range allows
+		st = al(day0 + 10)
+	}
+	switch parts[2] {
+	case "half_range":
+		step = R / 2
+	case "double_range":
+		step = 2 * R
+	case "coprime":
+		step = 7
+		if R%7 == 0 {
+			step = 3
+		}
+	default:
+		step = R
+	}
+	if step < 1 {
+		step = 1
+	}
+	switch parts[1] {
+	case "after_data":
+		en = day0 + 100
+	case "in_aligned": // on the range grid with samples in the bucket that begins at end; an even number of ranges after start
+		en = al(day0 + 20)
+		if (en-al(st))/R%2 != 0 {
+			en += R
+		}
+	case "in_aligned_odd":
+		en = al(day0 + 20)
+		if (en-al(st))/R%2 == 0 {
+			en += R
+		}
+	case "in_off":
+		en = day0 + 23
+	default: // last_sample
+		en = day0 + 39
+	}
+	for en <= st {
+		en += R
+	}
+	unit := int64(1)
+	if v, err := strconv.ParseInt(e.Params["start"], 10, 64); err == nil && start != 0 {
+		unit = v / start
+	}
+	return map[string]string{"start": fmt.Sprint(st * unit), "end": fmt.Sprint(en * unit), "step": fmt.Sprint(step)}
+}
+
 type Case struct {
 	Endpoint string `json:"endpoint"`
 	Query    string `json:"query"`
@@ -537,7 +659,15 @@ type Case struct {
 
 func build(e endpoint, qtext string, param, class string) string {
 	v := url.Values{}
+	var win map[string]string
+	if param == "@window" {
+		win = windowValues(e, qtext, class)
+	}
 	for p, val := range e.Params {
+		if wv, ok := win[p]; ok {
+			v.Set(p, wv)
+			continue
+		}
 		if p == param {
 			if nv, present := paramValue(p, val, class, e.Params); present {
 				v.Set(p, nv)
@@ -556,9 +686,15 @@ func build(e endpoint, qtext string, param, class string) string {
 // (so that the parameter classes produce wrong types, negative, zero, huge values), the selector as string or list.
 func buildBody(e endpoint, qtext string, param, class string) string {
 	m := map[string]any{}
+	var win map[string]string
+	if param == "@window" {
+		win = windowValues(e, qtext, class)
+	}
 	for p, val := range e.Params {
 		v, present := val, true
-		if p == param {
+		if wv, ok := win[p]; ok {
+			v = wv
+		} else if p == param {
 			v, present = paramValue(p, val, class, e.Params)
 		}
 		if !present {
@@ -966,6 +1102,39 @@ func runShard(reqs []Req, probe Req, add func(Finding), mu *sync.Mutex, codes ma
 		// goroutine census after every request that had a fault or an error status, and periodically
 		if rq.Fault != "none" || rs.Code >= 400 || i%10 == 9 || strings.Contains(rq.Label, "q=big_") {
 			cs, ok := ch.send(Req{ID: -1, Settle: true})
+			if !ok {
+				if _, m := crashSignature(ch.stderr.String()); m == "" {
+					// the census was not answered and the child left no Go crash report (panic / fatal error): a child killed
+					// from outside or starved of CPU is not evidence about the code - the request and its census once more on
+					// a fresh child; no answer again without a crash report = infrastructure
+					mu.Lock()
+					*restarts++
+					mu.Unlock()
+					if !restart() {
+						mu.Lock()
+						*infra = append(*infra, "cannot restart child")
+						mu.Unlock()
+						break
+					}
+					again := rq
+					again.TimeoutS = 30
+					if _, ok2 := ch.send(again); ok2 {
+						cs, ok = ch.send(Req{ID: -1, Settle: true, TimeoutS: 30})
+					}
+					if !ok {
+						if _, m2 := crashSignature(ch.stderr.String()); m2 == "" {
+							mu.Lock()
+							*infra = append(*infra, fmt.Sprintf("census after request %q: the child stopped answering twice without a Go crash report (killed from outside or out of time)", rq.Label))
+							mu.Unlock()
+							break
+						}
+					} else {
+						mu.Lock()
+						codes["census-answered-on-second-try:"+ep]++
+						mu.Unlock()
+					}
+				}
+			}
 			if !ok {
 				stderr := ch.stderr.String()
 				fn, msg := crashSignature(stderr)
